@@ -343,7 +343,10 @@ impl PartialOrd for Object {
         debug_assert_eq!(self.tag(), other.tag());
 
         match self.tag() {
-            Type::Null | Type::Bool | Type::Int => self.0.partial_cmp(&other.0),
+            Type::Null => Some(Ordering::Equal),
+            Type::Bool => self.as_bool().partial_cmp(&other.as_bool()),
+            // compare the decoded (signed) values, not the tagged words
+            Type::Int => self.as_int().partial_cmp(&other.as_int()),
             Type::Float => unsafe { self.as_f64_unchecked().partial_cmp(&other.as_f64()) },
             Type::String => unsafe { self.as_str_unchecked().partial_cmp(other.as_str()) },
             Type::Array | Type::Function => {
